@@ -44,12 +44,24 @@ type Contract struct {
 	Pure      bool
 	Invariants map[int][]Clause
 	Continues  map[int][]Clause // checked at every back edge of loop N
+	ForKeys    map[int]*ForKey  // loop N iterates a store: verify its body for an arbitrary key of a family
 	Unroll     map[int]int
 	File      *ContractFile
 	Line      int
 	Assumes   []string // free-text assumption notes
 	CallSites []CallSiteClause
+	Inline    bool
 	renameTo  []string // verifyImpl: additional (interface) names for the parameters, positionally
+}
+
+// ForKey: "loop N forkey v1 T1, v2 T2 :: keyExpr [requires cond]". The body of loop N is executed with the
+// iterator positioned on keyExpr for arbitrary values of the variables (which the loop's continue /
+// invariant clauses may mention).
+type ForKey struct {
+	Vars     [][2]string
+	Expr     ast.Expr
+	Requires ast.Expr
+	Text     string
 }
 
 // CallSiteClause: "callsite <callee> [label] expr" — expr is evaluated at every call of
@@ -115,7 +127,7 @@ func (cx *Contracts) ifaceContract(t types.Type, method string) *Contract {
 	return cx.iface[n.Obj().Pkg().Path()+"."+n.Obj().Name()+"."+method]
 }
 
-var clauseRe = regexp.MustCompile(`^(requires|ensures|names|modifies|let|nopanic|trusted|pure|loop|assumes|callsite)\b\s*(.*)$`)
+var clauseRe = regexp.MustCompile(`^(requires|ensures|names|modifies|let|nopanic|trusted|pure|inline|loop|assumes|callsite)\b\s*(.*)$`)
 var labelRe = regexp.MustCompile(`^\[([^\]]+)\]\s*(.*)$`)
 
 func loadContracts(p *Program, overlay map[string][]byte) *Contracts {
@@ -203,13 +215,13 @@ func (cx *Contracts) parseFile(cf *ContractFile, text string) {
 		case strings.HasPrefix(t, "// verif:func "):
 			flush()
 			key := strings.TrimSpace(strings.TrimPrefix(t, "// verif:func "))
-			cur = &Contract{Key: key, PkgPath: cf.PkgPath, Lets: map[string]ast.Expr{}, Invariants: map[int][]Clause{}, Continues: map[int][]Clause{}, Unroll: map[int]int{}, File: cf, Line: i + 1}
+			cur = &Contract{Key: key, PkgPath: cf.PkgPath, Lets: map[string]ast.Expr{}, Invariants: map[int][]Clause{}, Continues: map[int][]Clause{}, ForKeys: map[int]*ForKey{}, Unroll: map[int]int{}, File: cf, Line: i + 1}
 			cx.bindFunc(cur)
 			cx.all = append(cx.all, cur)
 		case strings.HasPrefix(t, "// verif:extern "):
 			flush()
 			spec := strings.TrimSpace(strings.TrimPrefix(t, "// verif:extern "))
-			cur = &Contract{Key: "EXTERN " + spec, PkgPath: cf.PkgPath, Lets: map[string]ast.Expr{}, Invariants: map[int][]Clause{}, Continues: map[int][]Clause{}, Unroll: map[int]int{}, File: cf, Line: i + 1, Trusted: true}
+			cur = &Contract{Key: "EXTERN " + spec, PkgPath: cf.PkgPath, Lets: map[string]ast.Expr{}, Invariants: map[int][]Clause{}, Continues: map[int][]Clause{}, ForKeys: map[int]*ForKey{}, Unroll: map[int]int{}, File: cf, Line: i + 1, Trusted: true}
 			// name(params): params is the last parenthesised group
 			j := strings.LastIndex(spec, "(")
 			name := spec
@@ -229,7 +241,7 @@ func (cx *Contracts) parseFile(cf *ContractFile, text string) {
 			flush()
 			// "// verif:iface exported.ClientState.VerifyPacketCommitment(ctx, store, cdc, height, proof, srcChain, dstChain, sequence, commitment)"
 			spec := strings.TrimSpace(strings.TrimPrefix(t, "// verif:iface "))
-			cur = &Contract{Key: "IFACE " + spec, PkgPath: cf.PkgPath, Lets: map[string]ast.Expr{}, Invariants: map[int][]Clause{}, Continues: map[int][]Clause{}, Unroll: map[int]int{}, File: cf, Line: i + 1}
+			cur = &Contract{Key: "IFACE " + spec, PkgPath: cf.PkgPath, Lets: map[string]ast.Expr{}, Invariants: map[int][]Clause{}, Continues: map[int][]Clause{}, ForKeys: map[int]*ForKey{}, Unroll: map[int]int{}, File: cf, Line: i + 1}
 			cx.bindIface(cur, spec)
 			cx.all = append(cx.all, cur)
 		case strings.HasPrefix(t, "//@"):
@@ -271,6 +283,11 @@ func (cx *Contracts) finishClause(ct *Contract, kind string, cl *Clause, cf *Con
 	case "pure":
 		ct.Pure = true
 		return
+	case "inline":
+		// the clauses are proved for the function, but callers (and specifications) unfold its body:
+		// used for key builders, whose structure the segment algebra needs at every use
+		ct.Inline = true
+		return
 	case "assumes":
 		ct.Assumes = append(ct.Assumes, text)
 		return
@@ -291,6 +308,38 @@ func (cx *Contracts) finishClause(ct *Contract, kind string, cl *Clause, cf *Con
 				var k int
 				fmt.Sscanf(rest, "%d", &k)
 				ct.Unroll[n] = k
+				return
+			case "forkey":
+				// v1 T1, v2 T2 :: expr [requires cond]
+				k := strings.Index(rest, "::")
+				if k < 0 {
+					cx.errorf("%s: %s: malformed forkey clause %q", cf.Path, ct.Key, rest)
+					return
+				}
+				fk := &ForKey{Text: rest}
+				for _, d := range strings.Split(rest[:k], ",") {
+					f := strings.Fields(strings.TrimSpace(d))
+					if len(f) == 2 {
+						fk.Vars = append(fk.Vars, [2]string{f[0], f[1]})
+					}
+				}
+				body := strings.TrimSpace(rest[k+2:])
+				if r := strings.Index(body, " requires "); r >= 0 {
+					rq, err := parseSpecExpr(strings.TrimSpace(body[r+len(" requires "):]))
+					if err != nil {
+						cx.errorf("%s: %s: forkey requires: %v", cf.Path, ct.Key, err)
+						return
+					}
+					fk.Requires = rq
+					body = strings.TrimSpace(body[:r])
+				}
+				ex, err := parseSpecExpr(body)
+				if err != nil {
+					cx.errorf("%s: %s: forkey expression %q: %v", cf.Path, ct.Key, body, err)
+					return
+				}
+				fk.Expr = ex
+				ct.ForKeys[n] = fk
 				return
 			case "continue":
 				cl2 := Clause{Text: rest}
